@@ -10,7 +10,8 @@ from fractions import Fraction
 
 REPO = os.environ.get('LADYBUG_REPO', '/repo')
 HERE = os.path.dirname(os.path.abspath(__file__))
-GEN_DIR = os.path.normpath(os.path.join(HERE, '..', '..', 'lean', 'Ladybug', 'Gen'))
+GEN_DIR = os.path.join(os.environ.get('VERIF_LEAN_DIR')
+                       or os.path.normpath(os.path.join(HERE, '..', '..', 'lean')), 'Ladybug', 'Gen')
 
 
 class ExtractError(Exception):
